@@ -67,6 +67,11 @@ def check_basic_fifo(ctx):
         raise AnalysisError("C14", comp.site, "BasicFifo: memory ports not found")
     ctx.check(rd_m["d"] == ("c", "sync") and rd_m["t"][0] == "list" and wr in rd_m["t"][1:], "C14.read-port-transparent", ex.obj(rd).site, "BasicFifo.read_port",
               found=tstr(ex.obj(rd).ctor), required="synchronous read port, transparent for the write port (an element written this cycle can be read next cycle)")
+    # declared ranges of the mirrors: the level can equal depth, the pointers address depth rows
+    for attr_, want in (("level", "self.depth + 1"), ("read_idx", "self.depth"), ("write_idx", "self.depth")):
+        d = comp.init_attr(attr_)
+        mm = pmatch("Signal(range(Q_n))", d) if d else None
+        ctx.check(mm is not None and lin_equal(mm["n"], pat(want)), "C14.mirror-range", comp.site, f"BasicFifo.{attr_}.shape", found=tstr(d) if d else "not declared", required=f"Signal(range({want}))")
     # mirrors of the allocator state
     for attr_, src in (("read_idx", "start_idx"), ("write_idx", "end_idx"), ("level", "allocated")):
         ws = writers_of(ex, ("a", ("self",), attr_))
